@@ -170,6 +170,48 @@ def unaligned_levels_history(prop):
     return viol, runs
 
 
+def cold_cache_history(prop, step=9):
+    """a Markov part whose searches ask the memo table about *negative* remainders (no initial n-gram at level 0, short lengths at high
+    length levels, long ones at low levels) and fill it well above the lowest levels: an uninterrupted run reaches the later levels with a
+    warm table, a resumed process starts with an empty one - quit at many places inside every level, resume, and the two sessions
+    together are the uninterrupted stream"""
+    A3 = ['a', 'b', 'c']
+    ips = [a + b for a in A3 for b in A3]
+    om = {'ngram': 3, 'alphabet': A3, 'ip': [[1 + i % 3, ip] for i, ip in enumerate(ips)], 'ep': [[0, ip] for ip in ips],
+          'cp': [[(i + 2 * j + i // 3) % 3, ip + c] for i, ip in enumerate(ips) for j, c in enumerate(A3)],
+          'ln': [10, 10, 1, 5, 6, 0], 'keyspace': [[l, 1] for l in range(1, 10)]}
+    spec = {'terminals': {'D1': [['1', '0.7'], ['2', '0.3']]}, 'grammar': [['M', '0.6'], ['D1', '0.4']],
+            'omen_prob': [[str(l), repr(0.5 ** l)] for l in range(1, 10)], 'prince': [], 'mode': 'dyadic', 'encoding': 'utf-8', 'omen': om}
+    d = common.write_ruleset(os.path.join(common.scratch_dir('rules'), 'c15cold'), spec)
+    pcfg = common.load_grammar(d)
+    units = ss.units_of(pcfg)
+    full = [l for u in units for l in u[2]]
+    big = 'm' * (len(full) + 2 * len(units) + 5)
+    viol, runs = [], 0
+    for ui in [k for k, u in enumerate(units) if u[0] == 'm' and len(u[2]) >= 2 and k < len(units) - 1]:
+        n = len(units[ui][2])
+        for j in sorted(set(range(0, n - 1, step)) | {n - 2}):
+            sf = os.path.join(common.scratch_dir('sess'), 'c15cold.sav')
+            for ext in ('.sav', '.omn'):
+                if os.path.exists(sf[:-4] + ext):
+                    os.remove(sf[:-4] + ext)
+            wit = {'cold_cache_history': True, 'unit': ui, 'guess': j}
+            try:
+                # (the first session too runs on a grammar object of its own: what its memo table holds is its own history)
+                h1 = ss.run_session(common.load_grammar(d), sf, C12.new_cfg(), False, quit_schedule(units, ui, j), [('line', 'q', False)])
+                h2 = ss.run_session(common.load_grammar(d), sf, load_cfg(sf), True, big, [])
+            except Exception as e:
+                viol.append({'property': prop, 'kind': 'session-raised', 'error': repr(e)[:200], 'witness': wit})
+                return viol, runs
+            runs += 2
+            tot = h1['out'] + h2['out']
+            if tot != full:
+                viol.append({'property': prop, 'kind': 'omen-replay' if len(tot) > len(full) else 'lost-after-resume', 'emitted': len(tot), 'full': len(full),
+                             'sessions': [len(h1['out']), len(h2['out'])], 'witness': wit})
+                return viol, runs
+    return viol, runs
+
+
 def run(ctx):
     rng = ctx.rng
     common.use_impl()
@@ -352,6 +394,9 @@ def run(ctx):
     vs_cli, info_cli = cli_interleaved_sessions('C15', 'c15audit', big_markov_spec())
     viol += vs_cli
     cases += 1
+    v_cc, r_cc = cold_cache_history('C15')
+    viol += v_cc
+    cases += r_cc
     v_un, r_un = unaligned_levels_history('C15')
     viol += v_un
     cases += r_un
@@ -400,6 +445,9 @@ def run(ctx):
 
 
 def replay(ctx, payload):
+    if (payload.get('violation', {}).get('witness') or {}).get('cold_cache_history'):
+        common.use_impl()
+        return cold_cache_history(payload.get('property', 'C15'))[0]
     if (payload.get('violation', {}).get('witness') or {}).get('unaligned_levels_history'):
         common.use_impl()
         return unaligned_levels_history(payload.get('property', 'C15'))[0]
